@@ -1,10 +1,12 @@
 // Command kv: correspondence driver for the KVStore wrappers (engine `kv`, C15/C16):
 // cachekv, prefix, gaskv, tracekv, dbadapter over MemDB, in random stackings.
 // Output files in <out>:
-//   kv.ops   programs:  "P <id> <limit|inf> <layers...>" then "B <k> <v>" initial base content,
-//            then one op per line (see below), "E" ends a program            (input of the model)
-//   kv.impl  one line per op: "<prog>.<idx> <result> g=<gas consumed> t=<trace lines>"
-//   kv.stats.json
+//
+//	kv.ops   programs:  "P <id> <limit|inf> <layers...>" then "B <k> <v>" initial base content,
+//	         then one op per line (see below), "E" ends a program            (input of the model)
+//	kv.impl  one line per op: "<prog>.<idx> <result> g=<gas consumed> t=<trace lines>"
+//	kv.stats.json
+//
 // bytes are hex, "." is the empty string, "-" is nil (only for iterator end).
 package main
 
@@ -229,6 +231,7 @@ func runProgram(r *rng.R, pid int, wo, wi *bufio.Writer) {
 		meter = stypes.NewInfiniteGasMeter()
 	}
 	tb := &traceBuf{}
+	var wantMeta map[string]interface{} // the metadata every trace record must carry (nil: none)
 	db := dbm.NewMemDB()
 	layers := []layer{{kind: "base", st: dbadapter.Store{DB: db}}}
 	desc := []string{}
@@ -241,12 +244,23 @@ func runProgram(r *rng.R, pid int, wo, wi *bufio.Writer) {
 			stats["built/cachemulti-transient-key"]++
 		}
 		base := layers[0].st
-		l1 := cachemulti.NewStore(db, map[stypes.StoreKey]stypes.CacheWrapper{key: base}, map[string]stypes.StoreKey{"k": key}, tb, nil)
+		// a tracing context as BaseApp builds it: the block height is there from the start, the transaction hash is added to
+		// the branch afterwards - every record written from then on must carry both
+		var tc stypes.TraceContext
+		if r.Bool() {
+			tc = stypes.TraceContext{"blockHeight": 7}
+			wantMeta = map[string]interface{}{"blockHeight": float64(7), "txHash": "ab"}
+			stats["built/cachemulti-with-a-tracing-context"]++
+		}
+		l1 := cachemulti.NewStore(db, map[stypes.StoreKey]stypes.CacheWrapper{key: base}, map[string]stypes.StoreKey{"k": key}, tb, tc)
 		st1 := l1.GetKVStore(key)
-		l2 := l1.CacheMultiStore()
+		var l2 stypes.CacheMultiStore = l1.CacheMultiStore()
+		if tc != nil {
+			l2 = l2.SetTracingContext(stypes.TraceContext{"txHash": "ab"}).(stypes.CacheMultiStore)
+		}
 		st2 := l2.GetKVStore(key)
-		layers = append(layers, layer{kind: "trace", st: tracekv.NewStore(base, tb, nil)}, layer{kind: "cache", st: st1, ms: l1},
-			layer{kind: "trace", st: tracekv.NewStore(st1, tb, nil)}, layer{kind: "cache", st: st2, ms: l2})
+		layers = append(layers, layer{kind: "trace", st: tracekv.NewStore(base, tb, tc)}, layer{kind: "cache", st: st1, ms: l1},
+			layer{kind: "trace", st: tracekv.NewStore(st1, tb, tc)}, layer{kind: "cache", st: st2, ms: l2})
 		desc = append(desc, "trace", "cache", "trace", "cache")
 		kinds = nil
 		stats["built/cachemulti-two-levels"]++
@@ -496,13 +510,18 @@ func runProgram(r *rng.R, pid int, wo, wi *bufio.Writer) {
 	var tl []string
 	for _, l := range tb.lines {
 		var o struct {
-			Operation string `json:"operation"`
-			Key       string `json:"key"`
-			Value     string `json:"value"`
+			Operation string                 `json:"operation"`
+			Key       string                 `json:"key"`
+			Value     string                 `json:"value"`
+			Metadata  map[string]interface{} `json:"metadata"`
 		}
 		_ = json.Unmarshal([]byte(l), &o)
 		k, _ := base64.StdEncoding.DecodeString(o.Key)
 		v, _ := base64.StdEncoding.DecodeString(o.Value)
+		if fmt.Sprint(o.Metadata) != fmt.Sprint(wantMeta) { // (fmt prints maps in key order)
+			o.Operation += fmt.Sprintf("!metadata=%v-expected=%v", o.Metadata, wantMeta)
+			o.Operation = strings.ReplaceAll(o.Operation, " ", "_")
+		}
 		tl = append(tl, o.Operation+":"+hx0(k)+":"+hx0(v))
 	}
 	emit("T", "["+strings.Join(tl, ",")+"]")
